@@ -1,6 +1,57 @@
 package main
 
-// thorough adds the tier-specific extras to the evidence (filled in later:
-// sensitivity sweep, selftest). The verdict is computed by the rule packs on
-// all build configurations.
-func thorough(id, verifDir string, extra map[string]any) {}
+import (
+	"os"
+	"strings"
+
+	"verif/checker/internal/load"
+)
+
+func repoDir() string { return load.RepoDir() }
+
+// thorough adds the tier-specific extras to the evidence: the static sensitivity sweep.
+// The verdict itself is computed by the rule packs on all build configurations (see check()).
+func thorough(id, verifDir string, extra map[string]any, funcs map[string]bool) {
+	if os.Getenv("VERIF_NO_SWEEP") != "" {
+		return
+	}
+	limit := 240
+	extra["sensitivity_sweep"] = sweep(id, verifDir, limit, relevantFuncs(funcs))
+}
+
+// relevantFuncs turns the analysed-function keys of a run ("pkg.Func|...", "(*pkg.T[A]).M|...", "pkg.F$1|...")
+// into declaration names ("Func", "T.M") so that the sweep mutates only what the property's rules look at.
+func relevantFuncs(funcs map[string]bool) map[string]bool {
+	out := map[string]bool{}
+	for k := range funcs {
+		if i := strings.Index(k, "|"); i >= 0 {
+			k = k[:i]
+		}
+		if i := strings.Index(k, "$"); i >= 0 {
+			k = k[:i]
+		}
+		name := k
+		recv := ""
+		if strings.HasPrefix(k, "(") {
+			if j := strings.LastIndex(k, ")."); j > 0 {
+				recv = k[1:j]
+				name = k[j+2:]
+				recv = strings.TrimPrefix(recv, "*")
+				if b := strings.Index(recv, "["); b >= 0 {
+					recv = recv[:b]
+				}
+				if d := strings.LastIndex(recv, "."); d >= 0 {
+					recv = recv[d+1:]
+				}
+			}
+		} else if d := strings.LastIndex(k, "."); d >= 0 {
+			name = k[d+1:]
+		}
+		if recv != "" {
+			out[recv+"."+name] = true
+		} else {
+			out[name] = true
+		}
+	}
+	return out
+}
